@@ -346,19 +346,6 @@ Proof.
 Qed.
 
 (* ------------------------------------------------------------------ the clauses *)
-Lemma existsb_filter_false {A} (f p : A -> bool) l :
-  (forall z, In z l -> p z = true -> f z = false) -> existsb f (filter p l) = false.
-Proof.
-  intros H. apply existsb_false_intro. intros z Hz. apply filter_In in Hz as [Hz Hp]. auto.
-Qed.
-
-Lemma nth_error_map_inv {A B} (f : A -> B) l j b : nth_error (map f l) j = Some b -> exists a, nth_error l j = Some a /\ b = f a.
-Proof.
-  revert j. induction l as [|h t IH]; intros [|j] H; try discriminate; cbn in H.
-  - inversion H. exists h. auto.
-  - apply IH in H as [a [H1 H2]]. exists a. auto.
-Qed.
-
 Lemma succ_unique s g1 v1 g2 v2 : Inv s -> succeeded s g1 v1 -> succeeded s g2 v2 -> g1 = g2 /\ v1 = v2.
 Proof.
   intros HI H1 H2. pose proof (succeeded_prom _ _ _ HI H1) as P1. pose proof (succeeded_prom _ _ _ HI H2) as P2.
